@@ -96,7 +96,7 @@ def gen_catalogue(seed):
     cfgs = []
     kinds = ["default", "fqn", "rrel", "postpone-once", "plain", "plain-single-mm", "plainuri", "fqnuri"]
     nitem = 0
-    for i in range(14):
+    for i in range(17):
         template = "items" if i % 3 != 2 or i >= 12 else "mods"
         cfg = {
             "template": template,
@@ -130,6 +130,14 @@ def gen_catalogue(seed):
             cfg["classes"] = [(c, t.pick(variants[:1] + variants[4:] if c == "Model" else variants, "variant"))
                               for c in names]
             cfg["procs"] = t.pick(["none", "record", "replace", "boom"], "procs")
+            if i >= 14:
+                # always in the catalogue, whatever the seed: an import provider with a repository shared by all loads
+                # and user classes whose finished objects differ most from objects under construction (a model cached
+                # by an earlier load is finished when a later load looks names up in it)
+                cfg["provider"] = ["fqnuri", "plainuri", "fqnuri"][i - 14]
+                cfg["global_repository"] = True
+                cfg["classes"] = [[("Box", "slots"), ("Def", "plain")], [("Use", "slots"), ("Box", "frozen"), ("Def", "slots")],
+                                  [("Box", "dataclass"), ("Def", "frozen"), ("Use", "own-dunders")]][i - 14]
         else:
             cfg["provider"] = "default"
             cfg["classes"] = []
